@@ -15,6 +15,13 @@ import (
 //  1. Is a module account.
 //  2. Is a vesting account which still not expired.
 func CheckIfAccountIsSuitableForDestroying(account sdk.AccountI) (destroyable bool, reason string) {
+	return CheckIfAccountIsSuitableForDestroyingAtTime(account, time.Now())
+}
+
+// CheckIfAccountIsSuitableForDestroyingAtTime is the same as CheckIfAccountIsSuitableForDestroying
+// but the expiry of a vesting account is judged at the given time. During block execution that must be
+// the block time: the wall clock differs between nodes and between execution and replay.
+func CheckIfAccountIsSuitableForDestroyingAtTime(account sdk.AccountI, at time.Time) (destroyable bool, reason string) {
 	if account == nil || reflect.ValueOf(account).IsNil() {
 		panic("account is nil")
 	}
@@ -25,14 +32,14 @@ func CheckIfAccountIsSuitableForDestroying(account sdk.AccountI) (destroyable bo
 	}
 
 	if vestingAcc, ok := account.(*vestingtypes.BaseVestingAccount); ok {
-		if vestingAcc.GetEndTime() > time.Now().UTC().Unix() {
+		if vestingAcc.GetEndTime() > at.UTC().Unix() {
 			reason = "unexpired vesting account is not suitable for destroying"
 			return
 		}
 	}
 
 	if vestingAcc, ok := account.(vesting.VestingAccount); ok {
-		if vestingAcc.GetEndTime() > time.Now().UTC().Unix() {
+		if vestingAcc.GetEndTime() > at.UTC().Unix() {
 			reason = "unexpired vesting account is not suitable for destroying"
 			return
 		}
